@@ -919,3 +919,9 @@ schema {
         assert_eq!(sdl, expected)
     }
 }
+
+#[cfg(feature = "verif-hooks")]
+#[doc(hidden)]
+pub fn verif_escape_string(s: &str) -> String {
+    escape_string(s)
+}
